@@ -62,6 +62,12 @@ Theorem C19_radii_nonincreasing : forall (d : nat -> nat -> Q) (N : nat) (pi : l
 Proof. exact radii_nonincreasing. Qed.
 Print Assumptions C19_radii_nonincreasing.
 
+(* 4b. such orders exist from every starting point (greedy_from: first farthest point in index order), so 4 is not vacuous *)
+Theorem C19_farthest_point_order_exists : forall (d : nat -> nat -> Q) (N s : nat),
+  (s < N)%nat -> greedyb d N [] (greedy_from d N s) = true.
+Proof. exact greedy_from_greedy. Qed.
+Print Assumptions C19_farthest_point_order_exists.
+
 (* 5. the boolean checks evaluated on the C++ output by the oracle mean what they say *)
 Theorem C19_sub_never_check_sound : forall (d : nat -> nat -> Q) (K : cplx),
   sub_neverb d K = true -> forall s f, In (s, f) K -> in_rips d s f.
